@@ -429,6 +429,51 @@ def process_conformance(task):
             "case": case}
 
 
+_SCRIPT_SRC = """
+def scripted(name):
+    def _d():
+        import builtins
+        return builtins._xv_script[name].pop(0)
+    return _d
+"""
+_sns = {"__name__": "__main__"}
+exec(_SCRIPT_SRC, _sns)
+
+
+def samples_case(task):
+    """sow_samples / grow / reap against direct evaluation of the same draws"""
+    import builtins
+    import xyzpy as xyz
+    from xyzpy.gen.cropping import grow
+
+    n, bkw, rev, rl = task
+    d = core.fresh_dir("c04s")
+    f = xfn.make_fn(["a", "b"], kind="num", name="f04q")
+    order = ("b", "a") if rev else ("a", "b")
+    draws = [(1 + (i * 2) % 3, 10 * (1 + i % 2)) for i in range(n)]
+    builtins._xv_script = {"a": [x[0] for x in draws],
+                           "b": [x[1] for x in draws]}
+    sampler = xyz.Sampler(xyz.Runner(f, var_names="out"),
+                          default_combos={k: _sns["scripted"](k)
+                                          for k in order})
+    try:
+        crop = sampler.Crop(name=NAME, parent_dir=d, **bkw)
+        crop.sow_samples(n, verbosity=0)
+        B = crop.num_batches
+        for i in range(B, 0, -1):
+            grow(i, crop=(xyz.Crop(name=NAME, parent_dir=d) if rl else crop),
+                 verbosity=0)
+        df = (xyz.Crop(name=NAME, parent_dir=d) if rl else crop).reap()
+        got = sorted(cmp.row_key(r) for r in cmp.df_rows(df))
+    except Exception as e:
+        return {"ok": False, "why": "raised %r" % e, "task": list(task)}
+    want = sorted(cmp.row_key({"a": a, "b": b,
+                               "out": xfn.expected("num", dict(a=a, b=b))})
+                  for a, b in draws)
+    return {"ok": got == want, "task": list(task),
+            "why": "reaped rows %r, drawn samples %r" % (got[:2], want[:2])}
+
+
 def run(ctx):
     os.environ["XV_TIER"] = ctx.tier
     all_cases = list(cases(ctx.tier, ctx.seed))
@@ -455,9 +500,20 @@ def run(ctx):
             ctx.violation("C04|fresh-process|%s" % r["case"]["kind"],
                           "steps in separate processes: %s" % r["why"],
                           dict(r["case"], fresh_process=True))
+    stasks = [(n, bkw, rev, rl) for n in (1, 3, 4)
+              for bkw in ({"batchsize": 1}, {"batchsize": 2}, {"num_batches": 2})
+              for rev in (False, True) for rl in (False, True)]
+    for r in ctx.map_unordered("samples_case", stasks):
+        ctx.evaluations += 1
+        if not r["ok"]:
+            ctx.violation("C04|sow_samples|%s" % (
+                "choices-reordered" if r["task"][2] else "signature-order"),
+                "sow_samples/grow/reap %r: %s" % (r["task"], r["why"]),
+                {"samples": r["task"]})
     ctx.coverage_extra.update({
         "states": states, "transitions": transitions,
         "traces_validated_against_impl": transitions,
+        "sow_samples_runs": len(stasks),
         "bfs_per_configuration": per,
         "layer1_configurations": len(all_cases),
         "pool_conformance_runs": npool,
@@ -473,6 +529,11 @@ def replay(case):
                                  if k != "fresh_process"})
         return [] if r["ok"] else [("C04|fresh-process|%s" % case["kind"],
                                     r["why"])]
+    if "samples" in case:
+        t = case["samples"]
+        r = samples_case((t[0], t[1], t[2], t[3]))
+        return [] if r["ok"] else [("C04|sow_samples|%s" % (
+            "choices-reordered" if t[2] else "signature-order"), r["why"])]
     if "pool" in case:
         class C:
             def __init__(s):
